@@ -88,7 +88,7 @@ INTEGRATORS = [("_FixedStepRK", RK, ("_integrate_fixed_rk", "_integrate_fixed_rk
                ("_ExtendedSymplectic", SY, ("_integrate_symplectic",), "agnostic")]
 
 
-def _run_integrate(cls_name, modname, drivers, tv, rep, fwd=None, ham=False, event=False, hit=False):
+def _run_integrate(cls_name, modname, drivers, tv, rep, fwd=None, ham=False, event=False, hit=False, real_short_circuit=False):
     cap = {"calls": []}
 
     def stub(name):
@@ -114,6 +114,11 @@ def _run_integrate(cls_name, modname, drivers, tv, rep, fwd=None, ham=False, eve
     obj = _integrator(cls_name, modname)
     attrs = {"rhs_params": (sp.Symbol("JAC"), sp.Symbol("CLMO"), sp.Symbol("NDOF")), "dim": 2, "rhs": sp.Symbol("RHS"), "jac_H": sp.Symbol("JAC"),
              "clmo_H": sp.Symbol("CLMO"), "n_dof": 1}
+    if real_short_circuit:
+        # the integrator's own _maybe_constant_solution runs (not the model's stub) and may evaluate the right-hand side once
+        obj.attrs.pop("_maybe_constant_solution", None)
+        obj.attrs["validate_inputs"] = lambda *a: None
+        attrs["rhs"] = lambda t, y: tagvec("F0")
     system = SymObj(None, attrs, "system")
     if fwd is not None:
         # a direction-wrapped system exactly as _DirectedSystem's own constructor builds it (what the integrator reads off it
@@ -319,32 +324,27 @@ def _a_direction_magnitude(chk):
 
 
 def _d_zero_span_everywhere(chk):
-    """validate_inputs admits a grid whose end points coincide (documented: "for the zero-span short-circuit"); every integrator's
-    integrate() must therefore take that short-circuit (or raise) BEFORE a kernel sees the grid: a zero step makes the symplectic
-    omega = (c*0)^-order infinite (NaN states, silently) and the RK45 dense output divide by a zero segment length.  Path rule on the
-    statement CFG: every path from the entry of integrate() to a kernel call passes the call of _maybe_constant_solution whose non-None
-    result is returned."""
+    """validate_inputs admits a grid whose end points coincide (documented: "for the zero-span short-circuit"); every integrator's integrate() must therefore
+    answer such a grid with the constant solution (or raise) BEFORE a kernel sees it: a zero step makes the symplectic omega = (c*0)^-order infinite (NaN states,
+    silently) and the RK45 dense output divide by a zero segment length.  Decided by interpreting each integrate() - plain and event branch - on a grid whose
+    three nodes share one representative value, with the integrator's own _maybe_constant_solution: no kernel may be called."""
+    T = [sp.Symbol(f"T{i}", real=True) for i in range(3)]
+    tv = to_obj_array(T)
+    rep = {T[0]: 1, T[1]: 1, T[2]: 1}
     n = 0
     for cls_name, modname, drivers, kind in INTEGRATORS:
-        mod, cls = ri.find_def(modname, cls_name)
-        fn = next((f for f in cls.body if isinstance(f, ast.FunctionDef) and f.name == "integrate"), None)
-        if fn is None:
-            raise AnalysisError(f"anchor: {cls_name}.integrate not found")
-        n += 1
-        sc = [c for c in ast.walk(fn) if isinstance(c, ast.Call) and isinstance(c.func, ast.Attribute) and c.func.attr == "_maybe_constant_solution"]
-        kernels = [c for c in ast.walk(fn) if isinstance(c, ast.Call) and ast.unparse(c.func).split(".")[-1].startswith("_integrate_")]
-        if not kernels:
-            raise AnalysisError(f"anchor: {cls_name}.integrate calls no _integrate_* kernel")
-        ok = False
-        if sc:
-            # the short-circuit sits in the straight-line prefix of the body (not under a branch) and precedes every kernel call; its result is returned when not None
-            top = [st for st in fn.body if any(c is x for c in sc for x in ast.walk(st))]
-            guard = [st for st in fn.body if isinstance(st, ast.If) and any(isinstance(r, ast.Return) for r in st.body) and "is not None" in ast.unparse(st.test)]
-            ok = bool(top) and bool(guard) and min(st.lineno for st in top) < min(k.lineno for k in kernels) and min(g.lineno for g in guard) < min(k.lineno for k in kernels)
-        chk.check(ok, "C10.d", f"{modname}::{cls_name}.integrate[zero-span grid]",
-                  f"{cls_name}.integrate hands a grid with coinciding end points (admitted by validate_inputs) to {sorted({ast.unparse(k.func).split('.')[-1] for k in kernels})[:2]} "
-                  f"without taking the zero-span short-circuit first", sample=f"{cls_name}.integrate: _maybe_constant_solution before any kernel")
-    chk.floor("integrate() methods examined for the zero-span short-circuit", n, 4)
+        for event in (False, True):
+            n += 1
+            sym = cls_name == "_ExtendedSymplectic"
+            try:
+                outcome, sol, cap = _run_integrate(cls_name, modname, drivers, tv, rep, fwd=(1 if sym else None), ham=sym, event=event, real_short_circuit=True)
+            except OutsideFragment as exc:
+                raise AnalysisError(f"{cls_name}.integrate on a zero-span grid outside fragment: {exc}")
+            kernels = [c[0] for c in cap["calls"]]
+            chk.check(outcome == "raise" or not kernels, "C10.d", f"{modname}::{cls_name}.integrate[zero-span grid,{'event' if event else 'plain'}]",
+                      f"{cls_name}.integrate hands a grid with coinciding end points (admitted by validate_inputs) to {kernels} instead of answering it with the constant solution",
+                      sample=f"{cls_name} ({'event' if event else 'plain'}): zero-span grid -> constant solution, no kernel call")
+    chk.floor("integrate() branches examined for the zero-span short-circuit", n, 8)
 
 
 def _a_facade_chain(chk):
